@@ -506,53 +506,128 @@ def _walk_with_guards(body, guards):
 
 
 # ----------------------------------------------------------------- split-flags
+def _last_def(fnode, name, before):
+    best = None
+    for a in ast.walk(fnode):
+        if isinstance(a, ast.Assign) and a.lineno < before:
+            for t in a.targets:
+                for k, el in enumerate(t.elts if isinstance(t, (ast.Tuple, ast.List)) else [t]):
+                    if isinstance(el, ast.Name) and el.id == name and (best is None or a.lineno > best[0]):
+                        best = (a.lineno, a, k if isinstance(t, (ast.Tuple, ast.List)) else None, len(a.targets))
+    return best
+
+
 def rule_split_flags(ctx):
     r = RuleResult(
         "split-flags",
-        "tensor_split marks Tl/Tr isometric under exactly the left_isom/right_isom results of "
-        "parse_split_left_right_isom(method, absorb), with the factor's own non-bond indices; both factors "
-        "(and the singular-value tensor) carry the same new bond label(s)",
+        "tensor_split (decided by def-use, not by text): the two factor tensors are built from the first / last result of "
+        "array_split; each is marked isometric under the corresponding (first / second) flag returned by "
+        "parse_split_left_right_isom(method, absorb) and only then, with exactly the non-bond indices it was given; both "
+        "factors and the singular-value tensor take their bond label(s) from the same source; every truncation option "
+        "reaches array_split under its own name",
     )
     f = ctx.prog.func("quimb.tensor.tensor_core", "tensor_split")
+    if f is None:
+        raise AnalysisError("tensor_split not found")
     where = f"{f.module.relpath}:{f.lineno}"
-    src = " ".join(src_of(f.node).split())
-    if "left_isom, right_isom = parse_split_left_right_isom(method, absorb)" in src:
-        r.ok("tensor_split[parser]", sample={"flags from": "parse_split_left_right_isom(method, absorb)"})
-    else:
+    # flags
+    flags = None
+    for a in ast.walk(f.node):
+        if isinstance(a, ast.Assign) and isinstance(a.value, ast.Call) and dotted(a.value.func) == "parse_split_left_right_isom" \
+                and isinstance(a.targets[0], ast.Tuple) and len(a.targets[0].elts) == 2 and all(isinstance(e, ast.Name) for e in a.targets[0].elts):
+            args = [src_of(x) for x in a.value.args] + [f"{k.arg}={src_of(k.value)}" for k in a.value.keywords]
+            flags = (a.targets[0].elts[0].id, a.targets[0].elts[1].id, args)
+    if flags is None:
         r.bad(Finding("split-flags", "tensor_split", "isometry flags are not obtained from parse_split_left_right_isom(method, absorb)", where=where, operand="parser"))
-    want = {
-        "Tl": ("left", "left_inds if left_isom else None", "(*left_inds, bond_ind_l)"),
-        "Tr": ("right", "right_inds if right_isom else None", "(bond_ind_r, *right_inds)"),
-    }
-    for n in ast.walk(f.node):
-        if isinstance(n, ast.Assign) and isinstance(n.targets[0], ast.Name) and n.targets[0].id in want and isinstance(n.value, ast.Call) and dotted(n.value.func) == "Tensor":
-            name = n.targets[0].id
-            data, flag, inds = want[name]
-            kws = {k.arg: src_of(k.value) for k in n.value.keywords}
-            ok = kws.get("data") == data and kws.get("left_inds") == flag and kws.get("inds") == inds
-            if ok:
-                r.ok(f"tensor_split[{name}]", sample={"tensor": name, **kws})
-            else:
-                r.bad(Finding("split-flags", "tensor_split",
-                              f"{name} is built with data={kws.get('data')}, inds={kws.get('inds')}, left_inds={kws.get('left_inds')}; "
-                              f"expected data={data}, inds={inds}, left_inds={flag}", where=where, operand=name))
-            want[name] = None
-    for name, v in want.items():
-        if v is not None:
-            r.bad(Finding("split-flags", "tensor_split", f"construction of {name} not found", where=where, operand=name))
-    if "bond_ind_l = bond_ind_r = bond_ind" in src and "Ts = Tensor(data=s, inds=(bond_ind_l, bond_ind_r)" in src and "Ts = Tensor(data=s, inds=(bond_ind,)" in src:
-        r.ok("tensor_split[bond labels]")
+        return r
+    lflag, rflag, pargs = flags
+    if [a.split("=")[-1] for a in pargs] == ["method", "absorb"]:
+        r.ok("tensor_split[parser]", sample={"flags": [lflag, rflag], "from": f"parse_split_left_right_isom({', '.join(pargs)})"})
     else:
-        r.bad(Finding("split-flags", "tensor_split", "bond labels of the factors / singular-value tensor do not match", where=where, operand="bond"))
-    # options delivered to array_split
+        r.bad(Finding("split-flags", "tensor_split", f"parse_split_left_right_isom is called with ({', '.join(pargs)}) instead of (method, absorb)", where=where, operand="parser-args"))
+    # results of array_split
+    unpack = None
+    for a in ast.walk(f.node):
+        if isinstance(a, ast.Assign) and isinstance(a.value, ast.Call) and dotted(a.value.func) == "array_split" and isinstance(a.targets[0], ast.Tuple) and len(a.targets[0].elts) == 3:
+            unpack = [e.id if isinstance(e, ast.Name) else None for e in a.targets[0].elts]
+            split_call = a.value
+    if unpack is None:
+        raise AnalysisError("tensor_split: `left, s, right = array_split(...)` not found")
+    role_of = {unpack[0]: ("left", lflag), unpack[2]: ("right", rflag)}
+    bonds = {}
+    seen = set()
     for n in ast.walk(f.node):
-        if isinstance(n, ast.Call) and dotted(n.func) == "array_split":
-            kws = {k.arg: src_of(k.value) for k in n.keywords if k.arg}
-            for p in ("method", "absorb", "max_bond", "cutoff", "cutoff_mode", "renorm", "info"):
-                if kws.get(p) == p:
-                    r.ok(f"tensor_split[array_split {p}]")
+        if isinstance(n, ast.Call) and dotted(n.func) == "Tensor":
+            kws = {k.arg: k.value for k in n.keywords if k.arg}
+            data = kws.get("data", n.args[0] if n.args else None)
+            if not isinstance(data, ast.Name):
+                continue
+            if data.id in role_of:
+                role, flag = role_of[data.id]
+                seen.add(role)
+                inds, li = kws.get("inds"), kws.get("left_inds")
+                starred = [e.value.id for e in getattr(inds, "elts", []) if isinstance(e, ast.Starred) and isinstance(e.value, ast.Name)]
+                plain = [e.id for e in getattr(inds, "elts", []) if isinstance(e, ast.Name)]
+                problems = []
+                if len(starred) != 1 or len(plain) != 1:
+                    problems.append(f"inds={src_of(inds) if inds is not None else None} is not (own indices..., bond)")
                 else:
-                    r.bad(Finding("split-flags", "tensor_split", f"option `{p}` is not delivered to array_split", where=where, operand="deliver:" + p))
+                    bonds[role] = plain[0]
+                    ok_flag = (
+                        isinstance(li, ast.IfExp) and isinstance(li.test, ast.Name) and li.test.id == flag
+                        and isinstance(li.body, ast.Name) and li.body.id == starred[0]
+                        and isinstance(li.orelse, ast.Constant) and li.orelse.value is None
+                    )
+                    if not ok_flag:
+                        problems.append(
+                            f"left_inds={src_of(li) if li is not None else None}; the {role} factor must be flagged with its own indices `{starred[0]}` exactly when `{flag}` holds")
+                if problems:
+                    for pr in problems:
+                        r.bad(Finding("split-flags", "tensor_split", f"{role} factor: {pr}", where=f"{f.module.relpath}:{n.lineno}", operand=role))
+                else:
+                    r.ok(f"tensor_split[{role}]", sample={"factor": role, "data": data.id, "inds": src_of(inds), "left_inds": src_of(li)})
+            elif data.id == unpack[1]:
+                inds = kws.get("inds")
+                bonds.setdefault("s", []).append([e.id for e in getattr(inds, "elts", []) if isinstance(e, ast.Name)])
+    for role in ("left", "right"):
+        if role not in seen:
+            r.bad(Finding("split-flags", "tensor_split", f"construction of the {role} factor tensor not found", where=where, operand=role))
+    # bond labels: both factor bonds and the singular-value tensor's labels come from one source
+    if "left" in bonds and "right" in bonds:
+        bl, br = bonds["left"], bonds["right"]
+
+        def sources(name, depth=0):
+            out = {name}
+            if depth > 3:
+                return out
+            for a in ast.walk(f.node):
+                if isinstance(a, ast.Assign):
+                    tnames = []
+                    for t in a.targets:
+                        tnames += [e.id for e in (t.elts if isinstance(t, (ast.Tuple, ast.List)) else [t]) if isinstance(e, ast.Name)]
+                    if name in tnames:
+                        for y in ast.walk(a.value):
+                            if isinstance(y, ast.Name) and y.id != name:
+                                out |= sources(y.id, depth + 1)
+                        out |= {t for t in tnames}
+            return out
+        common = sources(bl) & sources(br)
+        if bl == br or "bond_ind" in common:
+            r.ok("tensor_split[bond labels]", sample={"left bond": bl, "right bond": br, "common source": sorted(common)[:3]})
+        else:
+            r.bad(Finding("split-flags", "tensor_split", f"the factors' bond labels `{bl}` / `{br}` do not come from a common source", where=where, operand="bond"))
+        for labs in bonds.get("s", []):
+            if set(labs) <= (sources(bl) | sources(br)) and labs:
+                r.ok(f"tensor_split[s labels {labs}]", nontrivial=False)
+            else:
+                r.bad(Finding("split-flags", "tensor_split", f"the singular-value tensor is labelled {labs}, not with the factors' bond labels", where=where, operand="bond-s"))
+    # options delivered to array_split
+    kws = {k.arg: src_of(k.value) for k in split_call.keywords if k.arg}
+    for p_ in ("method", "absorb", "max_bond", "cutoff", "cutoff_mode", "renorm", "info"):
+        if kws.get(p_) == p_:
+            r.ok(f"tensor_split[array_split {p_}]", nontrivial=False)
+        else:
+            r.bad(Finding("split-flags", "tensor_split", f"option `{p_}` is not delivered to array_split", where=where, operand="deliver:" + p_))
     return r
 
 
